@@ -1,17 +1,46 @@
 package world
 
-import "fmt"
+import (
+	"bytes"
+	"fmt"
+	"os"
+	"path/filepath"
+	"strings"
+)
 
-// ApplyPass applies a source pass to the generated Go files of one world.
+// ApplyPass applies a per-world source pass to the generated Go files.
 func ApplyPass(name string, bw *Built, modDir string) error {
 	switch name {
-	case "yield":
-		return passYield(bw, modDir)
 	case "rand":
 		return passRand(bw, modDir)
 	}
 	return fmt.Errorf("unknown pass %q", name)
 }
 
-func passYield(bw *Built, modDir string) error { return fmt.Errorf("not implemented") }
-func passRand(bw *Built, modDir string) error  { return fmt.Errorf("not implemented") }
+// passRand (C20) routes the generated mock's randomness and clock through the
+// simulator: math/rand.Intn / Seed, crypto/rand.Read, time.Now in *_http_mock.pb.go
+// of the scratch copy.
+func passRand(bw *Built, modDir string) error {
+	for _, pkg := range bw.GoPkgs {
+		dir := filepath.Join(modDir, strings.TrimPrefix(pkg, ModName+"/"))
+		files, _ := filepath.Glob(filepath.Join(dir, "*_http_mock.pb.go"))
+		for _, f := range files {
+			src, err := os.ReadFile(f)
+			if err != nil {
+				return err
+			}
+			out := src
+			out = bytes.ReplaceAll(out, []byte("rand.Intn("), []byte("simrt.MockIntn("))
+			out = bytes.ReplaceAll(out, []byte("cryptosimrt.MockIntn("), []byte("cryptorand.Intn("))
+			out = bytes.ReplaceAll(out, []byte("rand.Seed("), []byte("simrt.MockSeed("))
+			out = bytes.ReplaceAll(out, []byte("cryptorand.Read("), []byte("simrt.MockCryptoRead("))
+			out = bytes.ReplaceAll(out, []byte("time.Now()"), []byte("simrt.MockNow()"))
+			out = bytes.Replace(out, []byte("import ("), []byte("import (\n\tsimrt \"verif/simrt\"\n"), 1)
+			out = append(out, []byte("\n\nvar _ = rand.Intn\nvar _ = cryptorand.Read\nvar _ = time.Now\nvar _ = simrt.MockIntn\n")...)
+			if err := os.WriteFile(f, out, 0o644); err != nil {
+				return err
+			}
+		}
+	}
+	return nil
+}
